@@ -691,6 +691,156 @@ Proof.
   - intros a b Hab. destruct (H a b Hab) as [Ha Hb]. split; apply in_seq; lia.
 Qed.
 
+(* ------------------------------------------------------------------ *)
+(** * 8. The statements in the form of Properties/C03poly.v *)
+
+Theorem poly_grounded_member_accepted : forall F a, wf F -> In a (lfp F) ->
+  (forall S, co F S -> In a S) /\
+  (forall s S, s <> STG -> ext s F S -> In a S) /\
+  (forall s, s <> STG -> skep s F [a]) /\
+  (forall s, s <> STG -> s <> ST -> cred s F [a]).
+Proof.
+  intros F a Hw Ha.
+  assert (Hm : exists x, In x [a] /\ In x (lfp F)) by (exists a; split; [left; reflexivity | exact Ha]).
+  split; [intros S HS; apply (grounded_in_complete F S a Ha HS)|].
+  split; [intros s S Hs HS; apply (grounded_in_ext s F S a Hw Hs Ha HS)|].
+  split.
+  - intros s Hs. apply grounded_skep; assumption.
+  - intros s Hs Hs'. apply grounded_cred; assumption.
+Qed.
+
+Theorem poly_defeated_rejected : forall F a b, wf F -> In b (lfp F) -> att F b a ->
+  (forall S, co F S -> ~ In a S) /\
+  (forall s S, s <> STG -> ext s F S -> ~ In a S) /\
+  (forall s, s <> STG -> ~ cred s F [a]) /\
+  (forall s, s <> STG -> s <> ST -> ~ skep s F [a]).
+Proof.
+  intros F a b Hw Hb Hba.
+  assert (Hd : forall x, In x [a] -> exists c, In c (lfp F) /\ att F c x).
+  { intros x [<-|[]]. exists b. split; assumption. }
+  split; [intros S HS; apply (defeated_not_in_complete F S a b Hb Hba HS)|].
+  split; [intros s S Hs HS; apply (defeated_not_in_ext s F S a b Hw Hs Hb Hba HS)|].
+  split.
+  - intros s Hs. apply defeated_not_cred; assumption.
+  - intros s Hs Hs'. apply defeated_not_skep; assumption.
+Qed.
+
+Theorem poly_grounded_stable_unique : forall F, wf F ->
+  (forall a, In a (args F) -> In a (lfp F) \/ exists b, In b (lfp F) /\ att F b a) ->
+  forall s,
+  (forall S, ext s F S <-> (forall a, In a S <-> In a (lfp F))) /\
+  (forall A, cred s F A <-> exists a, In a A /\ In a (lfp F)) /\
+  (forall A, skep s F A <-> exists a, In a A /\ In a (lfp F)).
+Proof.
+  intros F Hw Hg s.
+  assert (Hst : st F (lfp F)) by (apply g_stableb_spec; apply g_stableb_prop; exact Hg).
+  split; [intros S; apply (g_stable_unique s F S Hw Hst)|].
+  split; intros A.
+  - apply (g_stable_status s Cred F A Hw Hst).
+  - apply (g_stable_status s Skep F A Hw Hst).
+Qed.
+
+Theorem poly_lists : forall F s A, wf F -> s <> STG ->
+  ((exists a, In a A /\ In a (lfp F)) -> skep s F A /\ (s <> ST -> cred s F A)) /\
+  ((forall a, In a A -> exists b, In b (lfp F) /\ att F b a) ->
+   ~ cred s F A /\ (s <> ST -> ~ skep s F A)).
+Proof.
+  intros F s A Hw Hs. split; intros H; split.
+  - apply grounded_skep; assumption.
+  - intros Hs'. apply grounded_cred; assumption.
+  - apply defeated_not_cred; assumption.
+  - intros Hs'. apply defeated_not_skep; assumption.
+Qed.
+
+(* the oracle's reading of "complete" and "stable", in words *)
+Theorem co_reading : forall F S,
+  co F S <->
+  incl S (args F) /\
+  (forall a b, In a S -> In b S -> ~ att F a b) /\
+  (forall a b, In a S -> att F b a -> exists c, In c S /\ att F c b) /\
+  (forall a, In a (args F) -> ~ In a S ->
+     exists b, att F b a /\ forall c, In c S -> ~ att F c b).
+Proof.
+  intros F S. split.
+  - intros HS. pose proof HS as [[Hi [Hcf Hd]] Hc]. split; [exact Hi|]. split; [exact Hcf|].
+    split; [intros a b Ha Hba; apply (Hd a Ha b Hba)|].
+    intros a Ha Hn. apply cert_co in HS. apply andb_true_iff in HS. destruct HS as [_ HS].
+    unfold t_cob in HS. rewrite forallb_forall in HS. specialize (HS a Ha).
+    apply orb_true_iff in HS. destruct HS as [HS|HS].
+    { exfalso. apply Hn. apply memb_In. exact HS. }
+    apply negb_true_iff in HS. unfold subsetb in HS.
+    destruct (forallb_false_ex _ _ _ HS) as [b [Hb Hm]].
+    exists b. split; [apply in_attackers; exact Hb|].
+    intros c Hc' Hcb. apply memb_false in Hm. apply Hm. apply in_hit. exists c. split; assumption.
+  - intros [Hi [Hcf [Hd Hc]]]. split.
+    + split; [exact Hi|]. split; [exact Hcf|]. intros a Ha b Hba. apply (Hd a b Ha Hba).
+    + intros a Ha Hdef. destruct (in_dec Nat.eq_dec a S) as [Hin|Hn]; [exact Hin|exfalso].
+      destruct (Hc a Ha Hn) as [b [Hba Hno]]. destruct (Hdef b Hba) as [c [Hc' Hcb]].
+      exact (Hno c Hc' Hcb).
+Qed.
+
+Theorem st_reading : forall F S,
+  st F S <->
+  incl S (args F) /\
+  (forall a b, In a S -> In b S -> ~ att F a b) /\
+  (forall a, In a (args F) -> ~ In a S -> exists b, In b S /\ att F b a).
+Proof. intros F S. unfold st, cf. reflexivity. Qed.
+
+Theorem poly_certificate_tests : forall F S,
+  (t_membersb F S && t_cfb F S = true <-> cfs F S) /\
+  (t_membersb F S && t_cfb F S && t_admb F S = true <-> adm F S) /\
+  (t_membersb F S && t_cfb F S && t_admb F S && t_cob F S = true <-> co F S) /\
+  (t_membersb F S && t_cfb F S && t_stb F S = true <-> st F S).
+Proof.
+  intros F S. split; [apply cert_cfs|]. split; [apply cert_adm|].
+  split; [apply cert_co | apply cert_st].
+Qed.
+
+Theorem poly_certificate_sem : forall s F S, wf F ->
+  (ext s F S -> poly_cert_test s F S = true) /\
+  (s = CO \/ s = ST \/ s = GR -> poly_cert_test s F S = true -> ext s F S).
+Proof.
+  intros s F S Hw. split.
+  - apply poly_cert_test_necessary. exact Hw.
+  - intros Hs. apply (poly_cert_test_exact s F S Hw Hs).
+Qed.
+
+Theorem poly_status_all_sound : forall F s q A b, wf F ->
+  (poly_status F s q A = Some b -> statusb s q F A = b /\ (b = true <-> status s q F A)) /\
+  (poly_status_full F s q A = Some b -> statusb s q F A = b /\ (b = true <-> status s q F A)) /\
+  (forall a, dyn_poly_status F s q a = Some b ->
+     statusb s q F [a] = b /\ (b = true <-> status s q F [a])).
+Proof.
+  intros F s q A b Hw. split; [|split].
+  - intros H. split; [apply poly_status_sound | apply poly_status_sound_prop]; assumption.
+  - intros H. split; [apply poly_status_full_sound | apply poly_status_full_sound_prop]; assumption.
+  - intros a H. split; [apply dyn_poly_status_sound | apply dyn_poly_status_sound_prop]; assumption.
+Qed.
+
+Theorem poly_propagation : forall F,
+  (forall G D, prop_ground F = (G, D) ->
+     (forall a, In a G <-> In a (lfp F)) /\
+     (forall a, In a D <-> exists b, In b (lfp F) /\ att F b a)) /\
+  (forall k G D, prop_iter F k ([], []) = (G, D) ->
+     (forall a, In a (fst (prop_sweep F (G, D))) <-> In a G) ->
+     (forall a, In a G <-> In a (lfp F)) /\
+     (forall a, In a D <-> exists b, In b (lfp F) /\ att F b a)).
+Proof.
+  intros F. split.
+  - intros G D E. exact (prop_ground_grounded F G D E).
+  - intros k G D E Hfix.
+    pose proof (prop_iter_inv F k ([], []) (prop_inv_init F)) as Hi. rewrite E in Hi.
+    exact (prop_fixpoint_grounded F (G, D) Hi Hfix).
+Qed.
+
+Lemma wf_compactb : forall n l, atts_okb n l = true -> wf (compact n l).
+Proof.
+  intros n l H. apply wf_compact. intros a b Hab. unfold atts_okb in H.
+  rewrite forallb_forall in H. specialize (H (a, b) Hab). cbn [fst snd] in H.
+  apply andb_true_iff in H. destruct H as [H1 H2].
+  apply Nat.ltb_lt in H1. apply Nat.ltb_lt in H2. split; assumption.
+Qed.
+
 Print Assumptions poly_status_sound.
 Print Assumptions dyn_poly_status_sound.
 Print Assumptions poly_status_full_sound.
